@@ -267,7 +267,8 @@ def fam_arraymore(rng):
     rs = rules.gen_ruleset(rng, p_trail=rng.choice([0.0, 0.3]))
     rej = rng.random() < 0.25
     cfg = rt.Config(ledger=rng.random() < 0.3, backend=_backend(rng), topt=_compressed(rng) if rej else rng.choice(TOPTS),
-                    interactive=rng.choice([None, False]), yymore=True, array=True, reject=rej)
+                    interactive=rng.choice([None, False]), yymore=True, array=True, reject=rej,
+                    yylmax=rng.choice([None, None, 3, 5, 8, 13]))      # small YYLMAX: tokens right at the limit
     return rs, cfg, _ops_case(kinds=['more', 'more', 'input', 'return'] + (['reject'] if rej else []), small=not rej)
 
 
